@@ -12,6 +12,7 @@
 // See the License for the specific language governing permissions and
 // limitations under the License.
 
+#[cfg(not(foyer_verif))]
 use std::{
     collections::{HashSet, VecDeque},
     fmt::Debug,
@@ -20,6 +21,18 @@ use std::{
         Arc, RwLock, RwLockWriteGuard,
         atomic::{AtomicBool, AtomicUsize, Ordering},
     },
+};
+#[cfg(foyer_verif)]
+use std::{
+    collections::{HashSet, VecDeque},
+    fmt::Debug,
+    ops::{Deref, DerefMut},
+    sync::{Arc, atomic::Ordering},
+};
+#[cfg(foyer_verif)]
+use foyer_common::verif::sync::{
+    atomic::{AtomicBool, AtomicUsize},
+    std_like::{RwLock, RwLockWriteGuard},
 };
 
 use foyer_common::{
